@@ -10,7 +10,7 @@ CFG = {
             ("shm", "lim", "seq", 6, 60), ("shm", "def", "malformed", 5, 50)],
     "limit": (4, 30),
     "conc": "seq", "conc_quick": 5,
-    "conc2_quick": (3, 60), "conc2_thorough": (6, None),
+    "conc2_quick": (3, 60), "conc2_thorough": (3, None),
     "rand": ("seq", 8, 100),
 }
 
